@@ -1021,8 +1021,8 @@ def c08_oracle(case, r):
 
 
 # ---------------------------------------------------------------------------------------------- C11
-FAULT_TEXT = {"one": "backend-fault", "multi": "backend-fault", "unicode": "backend-fault", "empty": ""}
-FAULT_CLASS = {"one": "FaultA", "multi": "FaultMulti", "unicode": "UnicodeEncodeError", "empty": "FaultEmpty"}
+FAULT_TEXT = {"one": "backend-fault", "multi": "backend-fault", "unicode": "backend-fault", "empty": "", "picky": "backend-fault: quota of 4096 bytes exceeded"}
+FAULT_CLASS = {"one": "FaultA", "multi": "FaultMulti", "unicode": "UnicodeEncodeError", "empty": "FaultEmpty", "picky": "FaultPicky"}
 
 
 def c11_oracle(case, r):
